@@ -392,11 +392,52 @@ def argmax(a, axis=None, **k):
     return int(ctx().decide(alts))
 
 
+class LazyArgVector:
+    """result of argmin/argmax along an axis of a 2-D symbolic array: each entry is decided (forked)
+    only when it is first read, so rows the analysed code never looks at cost no paths"""
+
+    def __init__(self, rows, fn):
+        self._rows = rows
+        self._fn = fn
+        self._val = {}
+        self.shape = (len(rows),)
+        self.ndim = 1
+        self.dtype = _np.dtype(int)
+
+    def __len__(self):
+        return len(self._rows)
+
+    def _get(self, i):
+        i = int(i)
+        if i < 0:
+            i += len(self._rows)
+        if i not in self._val:
+            self._val[i] = int(self._fn(self._rows[i]))
+        return self._val[i]
+
+    def __getitem__(self, i):
+        if isinstance(i, (int, _np.integer)):
+            return self._get(i)
+        return _np.asarray(self)[i]
+
+    def __iter__(self):
+        return (self._get(i) for i in range(len(self._rows)))
+
+    def __array__(self, dtype=None, copy=None):
+        return _np.array([self._get(i) for i in range(len(self._rows))], dtype=dtype or int)
+
+    def tolist(self):
+        return list(self)
+
+
 def argmin(a, axis=None, **k):
     if not _any_sym(a):
         return _np.ndarray.argmin(_np.asarray(a), axis=axis)
     if axis is not None:
         a = _np.asarray(a)
+        if a.ndim == 2:
+            am = _np.moveaxis(a, axis, -1)
+            return LazyArgVector([am[i] for i in range(am.shape[0])], argmin)
         res = _np.empty([s for i, s in enumerate(a.shape) if i != axis % a.ndim], dtype=int)
         am = _np.moveaxis(a, axis, -1)
         for idx in _np.ndindex(*am.shape[:-1]):
